@@ -414,7 +414,9 @@ func sweepUnaryGen[T comparable](d *dom[T], gen func(c *explore.Chooser) []T) ex
 				rep.V("C13:Mapi", fmt.Sprintf("slice.Mapi passes indices %v on %v", idx, in), map[string]any{"function": "Mapi", "input": in})
 			}
 			// Collect: f applied to each element gives a slice [x; f x]
-			gc := slice.Collect(func(x T) []T { return []T{x, f.f(x)} }, s)
+			var corder []T
+			gc := slice.Collect(func(x T) []T { corder = append(corder, x); return []T{x, f.f(x)} }, s)
+			check(d, "Collect(call order)", ii, corder, s)
 			check(d, "Collect", ii, gc, toSlice(mConcat(mMap(func(x T) *L[T] { return &L[T]{x, &L[T]{f.f(x), nil}} }, l))))
 			// Collect with some empty results
 			if len(d.ps) > 0 {
@@ -436,6 +438,12 @@ func sweepUnaryGen[T comparable](d *dom[T], gen func(c *explore.Chooser) []T) ex
 		for _, p := range d.ps {
 			ii := in + " p=" + p.name
 			check(d, "Filter", ii, slice.Filter(p.f, s), toSlice(mFilter(p.f, l)))
+			{
+				// the predicate is asked once per element, left to right
+				var asked []T
+				slice.Filter(func(x T) bool { asked = append(asked, x); return p.f(x) }, s)
+				check(d, "Filter(call order)", ii, asked, s)
+			}
 			checkV(d.name, "Forall", ii, slice.Forall(p.f, s), mForall(p.f, l))
 			checkV(d.name, "Forany", ii, slice.Forany(p.f, s), mForany(p.f, l))
 			r := slice.TryFind(p.f, s)
